@@ -77,6 +77,28 @@ def step (s : St) (w : List String) : St × Out :=
     match s.pb with
     | none => (s, { model := "model-faulted-earlier" })
     | some p => (s, { model := peekLine p, spec := s!"0 {s.spec.length} {toHex s.spec} nul=1", cov := ["peek"] })
+  else if let ["sproom", h] := w then
+    -- sprintbuf while every realloc / vasprintf fails: served exactly when the model's call needs neither (the output
+    -- fits the stack buffer and the free space), otherwise refused with the buffer - text, length, terminating NUL - untouched
+    match s.pb, ofHex h with
+    | some p, some out =>
+      match Printbuf.step p (.sprintbuf out) with
+      | .fault why => ({ s with pb := none }, { model := "FAULT " ++ why, spec := "no-fault" })
+      | .ok r =>
+        if r.ret ≥ 0 ∧ r.pb.size = p.size ∧ (out.length : Int) ≤ Generated.sprintbufHeapAbove then
+          let q := r.pb
+          let b := contents q
+          ({ pb := some q, spec := ByteBuf.append s.spec out },
+           { model := specLine (.sprintbuf out) r.ret b (nulStr q) ++ s!" ## 0 {q.size} nul={nulStr q}",
+             spec := specLine (.sprintbuf out) out.length (ByteBuf.append s.spec out) "1", cov := ["sproom-served"] })
+        else
+          let b := contents p
+          (s, { model := s!"-1 {b.length} {toHex b} nul={nulStr p} ## oom {p.size} nul={nulStr p}",
+                -- refused: the buffer is as it was, so the byte after the text is what it was (a NUL after an append,
+                -- unspecified after a fill)
+                spec := s!"-1 {s.spec.length} {toHex s.spec} nul={nulStr p}", cov := ["sproom-refused"] })
+    | none, _ => (s, { model := "model-faulted-earlier" })
+    | _, none => (s, { model := "bad-op" })
   else
   match parseOp w with
   | none => (s, { model := "bad-op" })
